@@ -57,3 +57,33 @@ Example C14_witness :
   let ops := [WBits 5 3; WBit 1; WBits 18446744073709551615 64; WBits 123456789 40] in
   fold_left bv_app ops (0, 0) = (11 * 2 ^ 104 + (2 ^ 64 - 1) * 2 ^ 40 + 123456789, 108).
 Proof. vm_compute. reflexivity. Qed.
+
+(* ---------- the read side and the mirror ---------- *)
+From KV Require Import Model.InBS Proofs.BinCoderProofs Proofs.InBSProofs Proofs.MirrorProofs.
+
+(* every program of ReadBit / ReadBits, from every reachable state of the input stream: the values
+   are the next bits of the unread bit vector (accumulator bits, buffered bytes, bytes still in the
+   source - whatever chunk sizes the source delivers); a read past the end raises *)
+Theorem C14_reader_program : forall ops s, AInv s -> Forall rop_ok ops ->
+  run_rops s ops = spec_rops (uval s) (total s) ops.
+Proof. exact reader_program. Qed.
+Print Assumptions C14_reader_program.
+
+(* what WriteBit / WriteBits wrote and Close flushed is what ReadBit / ReadBits return, for every
+   program, buffer sizes on both sides and chunk schedule of the source *)
+Theorem C14_mirror : forall wbuf rbuf sched ops, 16 <= wbuf -> 0 < rbuf -> Forall wop_ok ops ->
+  exists s1 s2, run_wops (new_obs wbuf) ops = (s1, false) /\ close healthy s1 = (s2, false) /\
+    run_rops (new_ibs rbuf (mkSrc (o_out s2) sched None 0)) (rops_of ops) = vals_of ops.
+Proof. exact bitstream_mirror. Qed.
+Print Assumptions C14_mirror.
+
+Example C14_mirror_instance :
+  let ops := [WBits 5 3; WBit 1; WBits 0 0; WBits 123456789 31; WBits 18446744073709551615 64; WBit 0] in
+  match run_wops (new_obs 16) ops with
+  | (s1, false) => match close healthy s1 with
+                   | (s2, false) => run_rops (new_ibs 8 (mkSrc (o_out s2) [3; 1; 2] None 0)) (rops_of ops) =
+                                    [Some 5; Some 1; Some 123456789; Some 18446744073709551615; Some 0]
+                   | _ => False end
+  | _ => False
+  end.
+Proof. vm_compute. reflexivity. Qed.
